@@ -24,6 +24,7 @@ type dbOpts struct {
 	RBuf          uint64 `json:"rbuf"`
 	AsyncWAL      bool   `json:"async_wal,omitempty"`
 	DirectIOWAL   bool   `json:"directio_wal,omitempty"` // with the synchronous WAL every append is refused: all writes fail
+	EarlyClose    bool   `json:"early_close,omitempty"`  // Close is called on the handle before Open (it is refused and must change nothing)
 }
 
 func (o dbOpts) options() []simpledb.ExtraOption {
@@ -120,6 +121,11 @@ func (r *dbRunner) open(o dbOpts) error {
 	db, err := simpledb.NewSimpleDB(r.dir, o.options()...)
 	if err != nil {
 		return err
+	}
+	if o.EarlyClose {
+		if err := db.Close(); err == nil {
+			return fmt.Errorf("Close before Open was not refused")
+		}
 	}
 	if err := db.Open(); err != nil {
 		return err
